@@ -264,11 +264,10 @@ structure NewEffM (K : Nat) (st : St) (x : Expr) (e : Nat) (v : Int) (st1 : St) 
 theorem bodyOf_push_new (p : Prog) (x : Expr) : bodyOf (p ++ [.eff x]) p.length = x := by
   simp [bodyOf]
 
-theorem newEffM_spec {K : Nat} {st : St} (h : RM K st) {x : Expr} (hs : sigOnly K x = true) :
+theorem newEffM_spec' {K : Nat} {st : St} (h : RM K st) {x : Expr} (hwf : WF (st.prog ++ [.eff x]) = true)
+    (htr : bodiesTracked (st.prog ++ [.eff x]) = true) (hnw : x.noWrite = true) :
     NewEffM K st x (newEff st x).1 (newEff st x).2.1 (newEff st x).2.2 := by
   have hlen := h.len
-  obtain ⟨hwf, htr⟩ := h.wf_eff hs
-  have hnw : x.noWrite = true := by simp only [sigOnly, Bool.and_eq_true] at hs; exact hs.1.2
   -- the state after the push and the flag update
   have hrs : (newEff st x).2.2.rs =
       initRenderEffect (st.prog ++ [.eff x]) (st.rs.push (initNode (.eff x))) st.prog.length := rfl
@@ -335,12 +334,6 @@ theorem newEffM_spec {K : Nat} {st : St} (h : RM K st) {x : Expr} (hs : sigOnly 
         exact ⟨fun hd => absurd hd.1 hk, fun hd => absurd hd.1 hk'⟩
   refine ⟨rfl, rfl, ⟨htop.congrD hdead, hwf, htr, ?_, ?_⟩, ⟨⟨[.eff x], rfl⟩, fun _ hf => hf.elim, ?_, fun _ h => h⟩,
     hkindE, ?_, ?_, ?_, rfl, rfl, rfl, rfl, rfl, rfl⟩
-  · show ((newEff st x).2.2.rs.get st.prog.length).alive = true
-    rw [hrs, hlifeE.1]; rfl
-  · show ((newEff st x).2.2.rs.get st.prog.length).done = false
-    rw [hrs, hlifeE.2.1]; rfl
-  · show ((newEff st x).2.2.rs.get st.prog.length).first = false
-    rw [hrs, hlifeE.2.2.1]
   · show K ≤ (st.prog ++ [NodeDef.eff x]).length
     have := h.kle; simp; omega
   · intro i hi
@@ -350,6 +343,16 @@ theorem newEffM_spec {K : Nat} {st : St} (h : RM K st) {x : Expr} (hs : sigOnly 
     rw [List.getElem?_append_left (by have := h.kle; omega)]; exact hd
   · intro i hi hk _
     exact hold i hi hk
+  · show ((newEff st x).2.2.rs.get st.prog.length).alive = true
+    rw [hrs, hlifeE.1]; rfl
+  · show ((newEff st x).2.2.rs.get st.prog.length).done = false
+    rw [hrs, hlifeE.2.1]; rfl
+  · show ((newEff st x).2.2.rs.get st.prog.length).first = false
+    rw [hrs, hlifeE.2.2.1]
+
+theorem newEffM_spec {K : Nat} {st : St} (h : RM K st) {x : Expr} (hs : sigOnly K x = true) :
+    NewEffM K st x (newEff st x).1 (newEff st x).2.1 (newEff st x).2.2 :=
+  newEffM_spec' h (h.wf_eff hs).1 (h.wf_eff hs).2 (by simp only [sigOnly, Bool.and_eq_true] at hs; exact hs.1.2)
 
 theorem NewEffM.em {K : Nat} {st st1 st2 : St} {x : Expr} {e : Nat} {v : Int} {cur : Int → Prop}
     (hn : NewEffM K st x e v st1) (hk : K ≤ st.prog.length) (hnw : x.noWrite = true)
@@ -361,5 +364,81 @@ theorem NewEffM.em {K : Nat} {st st1 st2 : St} {x : Expr} {e : Nat} {v : Int} {c
     by rw [hk1.2.2.1]; exact hn.alive, by rw [hk1.2.2.2.1]; exact hn.done, by rw [hk1.2.2.2.2.1]; exact hn.first,
     ht, by rw [hk1.2.1, hn.val]; exact hc⟩
   rw [hx.prog_get hlt1, hn.prog, hn.he]; simp
+
+/-! ## dropping effects -/
+
+theorem dropEffM {K : Nat} {st : St} (h : RM K st) (e : Nat) (held : Option RState)
+    (hk : (st.rs.get e).kind = .eff) : RM K (dropEff st e held) := by
+  have hd := h.top.dispose e hk
+  obtain ⟨_, _, hget⟩ := dispose_get st.prog st.rs e
+  refine ⟨hd.congrD (fun i => ?_), h.wf, h.tr, h.kle, h.defs⟩
+  show (DeadE st.rs i ∨ i = e) ↔ DeadE (Reactive.step st.prog st.rs (.dispose e)).1 i
+  rw [DeadE, DeadE, hget i]
+  by_cases hie : i = e
+  · subst hie
+    by_cases ha : (st.rs.get i).alive = true
+    · simp [hk, ha]
+    · have ha' : (st.rs.get i).alive = false := by simpa using ha
+      simp [hk, ha']
+  · simp [hie]
+
+theorem dropAllM {K : Nat} : ∀ (l : List (Nat × Option RState)) {st : St}, RM K st →
+    (∀ z ∈ l, (st.rs.get z.1).kind = .eff) → RM K (dropAll st l)
+  | [], st, h, _ => by simpa [dropAll] using h
+  | z :: rest, st, h, hk => by
+    have e1 : dropAll st (z :: rest) = dropAll (dropEff st z.1 z.2) rest := by
+      simp [dropAll, List.foldl_cons]
+    rw [e1]
+    refine dropAllM rest (dropEffM h z.1 z.2 (hk z (by simp))) ?_
+    intro y hy
+    rw [dropEff_get]
+    split
+    · rw [killed_kind]; exact hk y (by simp [hy])
+    · exact hk y (by simp [hy])
+
+/-- what dropping does to the effects: those dropped are dead, the others keep their stable part -/
+theorem Dropped.extM {K : Nat} {l : List (Nat × Option RState)} {s s' : St} (d : Dropped l s s')
+    (hK : ∀ x ∈ l.map (·.1), K ≤ x) : ExtM K (fun x => x ∈ l.map (·.1)) s s' :=
+  ⟨⟨[], by rw [d.prog]; simp⟩, hK, fun i _ _ ha => by rw [d.get i, if_neg ha], fun e he => by rw [d.tasks]; exact he⟩
+
+theorem Dropped.dead {l : List (Nat × Option RState)} {s s' : St} (d : Dropped l s s') {x : Nat}
+    (hx : x ∈ l.map (·.1)) (hk : (s.rs.get x).kind = .eff) : (s'.rs.get x).alive = false := by
+  rw [d.get x, if_pos hx]
+  unfold killed
+  split
+  · rfl
+  · next hn =>
+    cases ha : (s.rs.get x).alive with
+    | false => rfl
+    | true => exact absurd ⟨hk, ha⟩ hn
+
+/-! ## writing a signal, creating a memo -/
+
+theorem setSigM {K : Nat} {st : St} (h : RM K st) (id : Nat) (v : Int) :
+    RM K (setSig st id v) ∧ ExtM K (fun _ => False) st (setSig st id v) := by
+  unfold setSig
+  simp only [Reactive.step]
+  cases hp : st.prog[id]? with
+  | none =>
+    exact ⟨h.of_rs_prog rfl rfl, ExtM.refl K _ (fun _ hf => hf.elim) st⟩
+  | some d =>
+    cases d with
+    | memo b => exact ⟨h.of_rs_prog rfl rfl, ExtM.refl K _ (fun _ hf => hf.elim) st⟩
+    | eff b => exact ⟨h.of_rs_prog rfl rfl, ExtM.refl K _ (fun _ hf => hf.elim) st⟩
+    | sig v0 =>
+      simp only
+      have hkid : (st.rs.get id).kind ≠ .eff := by
+        rw [h.top.quiet.inv.kind id _ hp]; simp [kindOf]
+      have hsk := setSignal_sk (X := fun _ => False) (fuelFor st.prog) st.rs id v hkid
+      have hdead : ∀ i, DeadE st.rs i ↔ DeadE (setSignal (fuelFor st.prog) st.rs id v) i := by
+        intro i
+        by_cases hk : (st.rs.get i).kind = .eff
+        · have := hsk.eff i hk (fun hf => hf)
+          simp only [stab, Prod.mk.injEq] at this
+          simp only [DeadE, this.1, this.2.2.1]
+        · have hk' : ((setSignal (fuelFor st.prog) st.rs id v).get i).kind ≠ .eff := by rw [hsk.kind]; exact hk
+          exact ⟨fun hd => absurd hd.1 hk, fun hd => absurd hd.1 hk'⟩
+      exact ⟨⟨(h.top.set hp v).congrD hdead, h.wf, h.tr, h.kle, h.defs⟩,
+        ExtM.of_sk (fun _ hf => hf.elim) rfl hsk (fun _ he => he)⟩
 
 end Leptos.RView
